@@ -13,6 +13,12 @@ use std::time::{Duration, Instant};
 
 pub const VERIF_DIR: &str = "/verif";
 
+/// Where evidence, replays and scratch files go (default /verif; the mutation self-test
+/// redirects it so that runs against seeded changes never overwrite real evidence).
+pub fn out_dir() -> std::path::PathBuf {
+    std::path::PathBuf::from(std::env::var("HCVERIF_OUT_DIR").unwrap_or_else(|_| VERIF_DIR.to_string()))
+}
+
 #[derive(Clone, Debug)]
 pub struct Violation {
     /// class signature (stable across runs; used for known-finding matching)
@@ -333,7 +339,7 @@ pub fn run_check(spec: &Spec, tier: Tier, extra_lanes: &[LaneResult]) -> i32 {
     let t0 = Instant::now();
     let seed = seed_from_env();
     let n = nshards();
-    let scratch = Path::new(VERIF_DIR).join("scratch").join(format!("{}-{}", spec.id, std::process::id()));
+    let scratch = out_dir().join("scratch").join(format!("{}-{}", spec.id, std::process::id()));
     let _ = std::fs::remove_dir_all(&scratch);
     std::fs::create_dir_all(&scratch).unwrap();
     let exe = std::env::current_exe().unwrap();
@@ -562,7 +568,7 @@ pub fn run_check(spec: &Spec, tier: Tier, extra_lanes: &[LaneResult]) -> i32 {
     for (sig, (what, n)) in &known_hit {
         println!("KNOWN-FINDING: property={} {} [signature {}; seen {} time(s) in this run]", spec.id, what, sig, n);
     }
-    let replay_dir = Path::new(VERIF_DIR).join("replays");
+    let replay_dir = out_dir().join("replays");
     let _ = std::fs::create_dir_all(&replay_dir);
     let mut printed: HashSet<String> = HashSet::new();
     let mut first_replay = String::new();
@@ -618,7 +624,7 @@ pub fn run_check(spec: &Spec, tier: Tier, extra_lanes: &[LaneResult]) -> i32 {
         "wall_s": wall,
         "violations": new_viol.len(),
     });
-    let evdir = Path::new(VERIF_DIR).join("evidence");
+    let evdir = out_dir().join("evidence");
     let _ = std::fs::create_dir_all(&evdir);
     let mut f = std::fs::File::create(evdir.join(format!("{}.json", spec.id))).unwrap();
     f.write_all(&serde_json::to_vec_pretty(&ev).unwrap()).unwrap();
